@@ -272,6 +272,105 @@ def selfCall (whProg : List (Nat × WInstr)) (st : WSt) (n : Nat) : WSt :=
 /-- the method programs of a wrapper type in a source table, `none` when a statement has no meaning -/
 def wProg (stmts : List (Nat × String × String)) : Option (List (Nat × WInstr)) := stmts.mapM parseW
 
+/-! ### ValidationHandler: ServeHTTP / Middleware → before → validateRequest as programs read off the source -/
+
+inductive VInstr
+  | callSub      -- `handled := h.before(w, r)` in ServeHTTP / Middleware; `err := h.validateRequest(r)` in before
+  | ifHandled    -- `if handled {`
+  | ifErr        -- `if err != nil {`
+  | ret          -- `return`, `return err` (err stays what it is)
+  | retNil       -- `return nil`
+  | retTrue      -- `return true`
+  | retFalse     -- `return false`
+  | serveRaw     -- `h.Handler.ServeHTTP(w, r)` / `next.ServeHTTP(w, r)`: the wrapped handler on the RAW writer
+  | encode       -- `h.ErrorEncoder(r.Context(), err, w)`: on the raw writer
+  | findRoute    -- `route, pathParams, err := h.router.FindRoute(r)`
+  | validateReq  -- `err = ValidateRequest(r.Context(), requestValidationInput)`
+  | nop          -- building Options{AuthenticationFunc} and the RequestValidationInput
+  deriving DecidableEq, Repr
+
+def vMeaning : List ((String × String) × VInstr) :=
+  [(("assign", "handled := h.before(w, r)"), .callSub),
+   (("if", "handled"), .ifHandled),
+   (("return", "return"), .ret),
+   (("call", "h.Handler.ServeHTTP(w, r)"), .serveRaw),
+   (("call", "next.ServeHTTP(w, r)"), .serveRaw),
+   (("assign", "err := h.validateRequest(r)"), .callSub),
+   (("if", "err != nil"), .ifErr),
+   (("call", "h.ErrorEncoder(r.Context(), err, w)"), .encode),
+   (("return", "return true"), .retTrue),
+   (("return", "return false"), .retFalse),
+   (("assign", "route, pathParams, err := h.router.FindRoute(r)"), .findRoute),
+   (("return", "return err"), .ret),
+   (("assign", "options := &Options{AuthenticationFunc: h.AuthenticationFunc}"), .nop),
+   (("assign", "requestValidationInput := &RequestValidationInput{Request: r, PathParams: pathParams, Route: route, Options: options}"), .nop),
+   (("assign", "err = ValidateRequest(r.Context(), requestValidationInput)"), .validateReq),
+   (("return", "return nil"), .retNil)]
+
+def parseV (r : Nat × String × String) : Option (Nat × VInstr) :=
+  (vMeaning.lookup (r.2.1, r.2.2)).map (fun i => (r.1, i))
+
+def vProg (stmts : List (Nat × String × String)) : Option (List (Nat × VInstr)) := stmts.mapM parseV
+
+structure VSt where
+  client : Client
+  err : Option ReqFail := none     -- the error value in flight (`none` = nil)
+  handled : Bool := false
+  handlerRan : Bool := false
+  encCalls : List ReqFail := []
+  returned : Bool := false
+  skip : Option Nat := none
+  stuck : Bool := false
+  deriving DecidableEq, Repr
+
+/-- the error FindRoute returns for this request -/
+def routeErr : ReqFail → Option ReqFail
+  | .noPath => some .noPath | .noMethod => some .noMethod | _ => none
+
+/-- the error ValidateRequest returns for this request (reached only when a route was found) -/
+def requestErr : ReqFail → Option ReqFail
+  | .none => none | f => some f
+
+def vrun (encOps : ReqFail → List Op) (fail : ReqFail) (ops : List Op) (sub : VSt → VSt) (st : VSt) (d : Nat) : VInstr → VSt
+  | .callSub => let r := sub { st with returned := false, skip := none }; { r with returned := false, skip := none }
+  | .ifHandled => if st.handled then st else { st with skip := some d }
+  | .ifErr => if st.err.isSome then st else { st with skip := some d }
+  | .ret => { st with returned := true }
+  | .retNil => { st with err := none, returned := true }
+  | .retTrue => { st with handled := true, returned := true }
+  | .retFalse => { st with handled := false, returned := true }
+  | .serveRaw => { st with client := runDirect st.client ops, handlerRan := true }
+  | .encode =>
+    match st.err with
+    | some f => { st with client := runDirect st.client (encOps f), encCalls := st.encCalls ++ [f] }
+    | none => { st with stuck := true }
+  | .findRoute => { st with err := routeErr fail }
+  | .validateReq => { st with err := requestErr fail }
+  | .nop => st
+
+def vstep (encOps : ReqFail → List Op) (fail : ReqFail) (ops : List Op) (sub : VSt → VSt) (st : VSt) (row : Nat × VInstr) : VSt :=
+  if st.returned then st else
+  match st.skip with
+  | some k => if k < row.1 then st else vrun encOps fail ops sub { st with skip := none } row.1 row.2
+  | none => vrun encOps fail ops sub st row.1 row.2
+
+def vexecRows (encOps : ReqFail → List Op) (fail : ReqFail) (ops : List Op) (sub : VSt → VSt) (prog : List (Nat × VInstr))
+    (st : VSt) : VSt := prog.foldl (vstep encOps fail ops sub) st
+
+/-- the entry program (ServeHTTP or the closure of Middleware) with `before` and `validateRequest` as given -/
+def vexec (encOps : ReqFail → List Op) (fail : ReqFail) (ops : List Op) (server : Bool)
+    (entry before validate : List (Nat × VInstr)) : VOutcome :=
+  let noSub : VSt → VSt := fun st => { st with stuck := true }
+  let runValidate := vexecRows encOps fail ops noSub validate
+  let runBefore := vexecRows encOps fail ops runValidate before
+  let r := vexecRows encOps fail ops runBefore entry { client := Client.init server }
+  { handlerRan := r.handlerRan, client := r.client, encCalls := r.encCalls }
+
+def vServeProg : List (Nat × VInstr) := [(0, .callSub), (0, .ifHandled), (1, .ret), (0, .serveRaw)]
+def vBeforeProg : List (Nat × VInstr) := [(0, .callSub), (0, .ifErr), (1, .encode), (1, .retTrue), (0, .retFalse)]
+def vValidateProg : List (Nat × VInstr) :=
+  [(0, .findRoute), (0, .ifErr), (1, .ret), (0, .nop), (0, .nop), (0, .validateReq), (0, .ifErr), (1, .ret), (0, .retNil)]
+
 /-! the programs the wrapper methods of the source must parse to -/
 def strictWH : List (Nat × WInstr) := [(0, .ifNotHWInfo), (1, .ret), (0, .ifNotHW), (1, .setStatus), (1, .setHW)]
 def strictW : List (Nat × WInstr) := [(0, .ifNotHW), (1, .selfWriteHeader200), (0, .bufWrite)]
